@@ -95,6 +95,15 @@ Definition splat_prop1 (i : isplat) (o : osplat) : bool :=
 (* record k of a byte string, read directly *)
 Definition word_at (bytes : list N) (o : nat) : N :=
   match de_le32 (firstn 4 (skipn o bytes)) with Some w => w | None => 0 end.
+(* the stored record k of the written file against the INPUT: scale words are the words of
+   float32(exp scale), the opacity byte is within one step of sigmoid(opacity) *)
+Definition stored_prop1 (bytes : list N) (k : nat) (i : isplat) : bool :=
+  let b := (32 * k)%nat in
+  let '(IS _ s _ a _) := i in
+  w3_eqb s (word_at bytes (b + 12), word_at bytes (b + 16), word_at bytes (b + 20))
+  && Qle_bool (Qabs (bq (nth (b + 27) bytes 0) / 255 - dy2q a)) step_col.
+Fixpoint stored_prop (bytes : list N) (k : nat) (cloud : list isplat) : bool :=
+  match cloud with [] => true | i :: r => stored_prop1 bytes k i && stored_prop bytes (S k) r end.
 Definition raw_prop1 (bytes : list N) (k : nat) (o : osplat) : bool :=
   let b := (32 * k)%nat in
   let '(OS p (d0, d1, d2) (s0, s1, s2, s3)) := o in
@@ -217,6 +226,7 @@ Definition prop_ok (c : case) : bool :=
   match c with
   | CSplat cloud ib rd_ok rd =>
       Nat.eqb (length ib) (32 * length cloud) && rd_ok && forall2b splat_prop1 cloud rd
+      && stored_prop ib 0 cloud
   | CSplatRead bytes rd_ok rd =>
       Nat.eqb (length rd) (length bytes / 32) && Bool.eqb rd_ok (Nat.eqb (length bytes mod 32) 0)
       && raw_prop bytes 0 rd
